@@ -18,6 +18,17 @@ Ltac run_it :=
 From Coq Require Import Lia.
 (* comparisons written another way round in the source (`!(a >= b)` for `a < b`, ...) leave contradictory case
    combinations: closed by arithmetic *)
+Ltac cmp_hyps :=
+  repeat match goal with
+         | H : negb _ = true |- _ => apply Bool.negb_true_iff in H
+         | H : negb _ = false |- _ => apply Bool.negb_false_iff in H
+         | H : (_ <? _) = true |- _ => apply N.ltb_lt in H
+         | H : (_ <? _) = false |- _ => apply N.ltb_ge in H
+         | H : (_ <=? _) = true |- _ => apply N.leb_le in H
+         | H : (_ <=? _) = false |- _ => apply N.leb_gt in H
+         | H : (_ =? _) = true |- _ => apply N.eqb_eq in H
+         | H : (_ =? _) = false |- _ => apply N.eqb_neq in H
+         end.
 Ltac absurd_cmp :=
   exfalso;
   repeat match goal with
@@ -47,58 +58,110 @@ Ltac tidy := rewrite ?b_with_inner, ?b_with_index, ?b_with_size, ?b_with_idem.
 
 Section Reader.
   Context {R : Type} (o : rops R).
+  (* the bounded wrappers copy nothing themselves *)
+  Let nocopy {A} (d : A) : N -> N -> R -> A := fun _ _ _ => d.
 
   Lemma bounded_reader_ensure n b :
-    exec (r_ensure o) tt [n] gen_BoundedReader_Ensure b = r_ensure (bounded_rops o) n b.
+    exec (r_ensure o) (nocopy tt) tt [n] gen_BoundedReader_Ensure b = r_ensure (bounded_rops o) n b.
   Proof. run_it. cases. Qed.
 
   Lemma bounded_reader_read1 b :
-    exec (fun _ => r_read1 o) 0 [] gen_BoundedReader_Read1 b = r_read1 (bounded_rops o) b.
+    exec (fun _ => r_read1 o) (nocopy 0) 0 [] gen_BoundedReader_Read1 b = r_read1 (bounded_rops o) b.
   Proof. run_it. cases; tidy; reflexivity. Qed.
 
   (* Read(begin, end): len elements of es bytes each, n = len * es bytes in std::size_t arithmetic *)
   Lemma bounded_reader_readn len es b :
-    exec (r_readn o) [] [len; es] gen_BoundedReader_ReadN b = r_readn (bounded_rops o) (wrap64 (es * len)) b.
+    exec (r_readn o) (nocopy []) [] [len; es] gen_BoundedReader_ReadN b = r_readn (bounded_rops o) (wrap64 (es * len)) b.
   Proof. run_it. rewrite (N.mul_comm len es). cases; tidy; reflexivity. Qed.
 
   Lemma bounded_reader_skip n b :
-    exec (r_skip o) tt [n] gen_BoundedReader_Skip b = r_skip (bounded_rops o) n b.
+    exec (r_skip o) (nocopy tt) tt [n] gen_BoundedReader_Skip b = r_skip (bounded_rops o) n b.
   Proof. run_it. cases; tidy; reflexivity. Qed.
 
   Lemma bounded_reader_read_padding b :
-    exec (r_skip o) tt [] gen_BoundedReader_ReadPadding b = bounded_read_padding o b.
+    exec (r_skip o) (nocopy tt) tt [] gen_BoundedReader_ReadPadding b = bounded_read_padding o b.
   Proof. run_it. cases; tidy; reflexivity. Qed.
 
   Lemma bounded_reader_gethandle ref b :
-    exec (fun _ => r_gethandle o ref) 0%Z [] gen_BoundedReader_GetHandle b = r_gethandle (bounded_rops o) ref b.
+    exec (fun _ => r_gethandle o ref) (nocopy 0%Z) 0%Z [] gen_BoundedReader_GetHandle b = r_gethandle (bounded_rops o) ref b.
   Proof. run_it. cases. Qed.
 End Reader.
 
 Section Writer.
   Context {W : Type} (o : wops W).
+  Let nocopy {A} (d : A) : N -> N -> W -> A := fun _ _ _ => d.
 
   Lemma bounded_writer_prepare n b :
-    exec (w_prepare o) tt [n] gen_BoundedWriter_Prepare b = w_prepare (bounded_wops o) n b.
+    exec (w_prepare o) (nocopy tt) tt [n] gen_BoundedWriter_Prepare b = w_prepare (bounded_wops o) n b.
   Proof. run_it. cases. Qed.
 
   Lemma bounded_writer_write1 x b :
-    exec (fun _ => w_write1 o x) tt [] gen_BoundedWriter_Write1 b = w_write1 (bounded_wops o) x b.
+    exec (fun _ => w_write1 o x) (nocopy tt) tt [] gen_BoundedWriter_Write1 b = w_write1 (bounded_wops o) x b.
   Proof. run_it. cases; tidy; reflexivity. Qed.
 
   (* Write(begin, end): the elements are the bytes bs; len * es is their number *)
   Lemma bounded_writer_writen bs len es b : wrap64 (es * len) = N.of_nat (length bs) ->
-    exec (fun _ => w_writen o bs) tt [len; es] gen_BoundedWriter_WriteN b = w_writen (bounded_wops o) bs b.
+    exec (fun _ => w_writen o bs) (nocopy tt) tt [len; es] gen_BoundedWriter_WriteN b = w_writen (bounded_wops o) bs b.
   Proof. intros E. run_it. rewrite (N.mul_comm len es), E. cases; tidy; reflexivity. Qed.
 
   Lemma bounded_writer_skip n v b :
-    exec (fun k => w_skip o k v) tt [n] gen_BoundedWriter_Skip b = w_skip (bounded_wops o) n v b.
+    exec (fun k => w_skip o k v) (nocopy tt) tt [n] gen_BoundedWriter_Skip b = w_skip (bounded_wops o) n v b.
   Proof. run_it. cases; tidy; reflexivity. Qed.
 
   Lemma bounded_writer_write_padding v b :
-    exec (fun k => w_skip o k v) tt [] gen_BoundedWriter_WritePadding b = bounded_write_padding o v b.
+    exec (fun k => w_skip o k v) (nocopy tt) tt [] gen_BoundedWriter_WritePadding b = bounded_write_padding o v b.
   Proof. run_it. cases; tidy; reflexivity. Qed.
 
   Lemma bounded_writer_pushhandle h b :
-    exec (fun _ => w_pushhandle o h) 0%Z [] gen_BoundedWriter_PushHandle b = w_pushhandle (bounded_wops o) h b.
+    exec (fun _ => w_pushhandle o h) (nocopy 0%Z) 0%Z [] gen_BoundedWriter_PushHandle b = w_pushhandle (bounded_wops o) h b.
   Proof. run_it. cases. Qed.
 End Writer.
+
+(* ---- BufferReader / PedanticBufferReader ------------------------------------------------------------------- *)
+(* The model IO.bufr_ops keeps the buffer and index_ (size_ is the buffer's length); the translated methods run on the
+   same three components.  The one-byte Read is `return Read(byte, byte + 1)` in the source: GenBounded records that
+   fact, and the model's one-byte read is its block read of one byte. *)
+Section BufferReaders.
+  Definition br_state (r : bufr) : Bounded bytes := (br_buf r, br_size r, br_idx r).
+  Definition br_back {A} (m : res A (Bounded bytes)) : res A bufr :=
+    match m with
+    | Ok a b => Ok a {| br_buf := b_inner b; br_idx := b_index b |}
+    | Err e b => Err e {| br_buf := b_inner b; br_idx := b_index b |}
+    end.
+  Definition nocall {A} : N -> bytes -> res A bytes := fun _ x => Err 0 x.
+  Definition slice (off len : N) (buf : bytes) : bytes := firstn (N.to_nat len) (skipn (N.to_nat off) buf).
+
+  Ltac run_buf :=
+    unfold exec, br_state, br_back; cbv [run test eval nth app
+      gen_BufferReader_Ensure gen_BufferReader_ReadN gen_BufferReader_Skip
+      gen_PedanticBufferReader_Ensure gen_PedanticBufferReader_ReadN gen_PedanticBufferReader_Skip];
+    cbn [r_ensure r_readn r_skip bufr_ops b_size b_index b_inner b_with fst snd]; unfold br_adv, br_slice, slice.
+
+  Lemma ensure_agrees s n r : s = gen_BufferReader_Ensure \/ s = gen_PedanticBufferReader_Ensure ->
+    br_back (exec nocall (fun _ _ _ => tt) tt [n] s (br_state r)) = r_ensure bufr_ops n r.
+  Proof. intros [-> | ->]; destruct r as [buf idx]; run_buf; cases. Qed.
+
+  Lemma skip_agrees s n r : s = gen_BufferReader_Skip \/ s = gen_PedanticBufferReader_Skip ->
+    br_back (exec nocall (fun _ _ _ => tt) tt [n] s (br_state r)) = r_skip bufr_ops n r.
+  Proof. intros [-> | ->]; destruct r as [buf idx]; run_buf; cases. Qed.
+
+  Lemma readn_agrees s len es r : s = gen_BufferReader_ReadN \/ s = gen_PedanticBufferReader_ReadN ->
+    br_back (exec nocall slice [] [len; es] s (br_state r)) = r_readn bufr_ops (wrap64 (es * len)) r.
+  Proof.
+    intros [-> | ->]; destruct r as [buf idx]; run_buf;
+      replace (wrap64 (len * es)) with (wrap64 (es * len)) by (rewrite N.mul_comm; reflexivity);
+      set (n := wrap64 (es * len)); cases;
+      (* what is left are the paths on which nothing was copied: the length is 0 there *)
+      (assert (n = 0) as -> by (cmp_hyps; lia); reflexivity).
+  Qed.
+
+  Lemma read1_is_block_read_of_one_byte :
+    gen_BufferReader_Read1_delegates = true /\ gen_PedanticBufferReader_Read1_delegates = true /\
+    forall r, r_read1 bufr_ops r = rmap (fun l => nth 0 l 0) (r_readn bufr_ops 1 r).
+  Proof.
+    split; [reflexivity|split; [reflexivity|]]. intros [buf idx]. cbn [r_read1 r_readn bufr_ops].
+    destruct (sub64 _ _ <? 1); [reflexivity|]. cbn [rmap]. f_equal. unfold br_slice. cbn [br_idx br_buf].
+    change (N.to_nat 1) with 1%nat. generalize (N.to_nat idx) as i. intros i. revert buf.
+    induction i as [|i IH]; intros [|x xs]; cbn; try reflexivity. apply IH.
+  Qed.
+End BufferReaders.
